@@ -142,7 +142,7 @@ def run(ctx):
     f = w.fn(MU + "MatrixId::parse_with_type")
     reader = {}
     for p in dex.paths(f, [D.sym("s")]):
-        lits = [a[2][1] for a, t in p.conds if a[0] == "eq" and t and D.is_const(a[2])]
+        lits = [a[2][1] for a, t in p.conds if a[0] == "eq" and t and D.is_const(a[2]) and isinstance(a[2][1], str)]      # type words are string literals
         args = [e for e in p.effects if e[0].endswith("new_display") and D.is_const(e[1][0]) and isinstance(e[1][0][1], str) and len(e[1][0][1]) == 1]
         if lits and args:
             reader.setdefault(lits[0], set()).add(args[0][1][0][1])
@@ -343,6 +343,67 @@ def run(ctx):
                       f"(80 three-byte characters are 240 bytes but 720 encoded characters)")
     if not lens:
         ctx.ok("C11.no-encoded-length-limit", "C11.no-encoded-length-limit:scan", "", f"{n_parse} parse functions, no length taken of encoded text")
+    # ---- a trailing '/' that the writer emits is not normalised away ---------------------------------------------------------------------
+    ctx.rule("C11.trailing-separator", "the typed form `type/id-without-sigil` ends in '/' when the identifier is its sigil alone (RoomId `!` and EventId `$` are "
+                                       "accepted by the validators): parse_with_type drops a trailing '/' only under a test of the number of '/' in the text "
+                                       "before dropping, so that the separator of an empty last segment is kept")
+    lone = []
+    for mod, sig in (("room_id", "!"), ("event_id", "$"), ("user_id", "@"), ("room_alias_id", "#")):
+        vf = w.lookup(f"ruma_identifiers_validation::{mod}::validate")
+        if vf is None or "body" not in vf:
+            continue
+        dxv = D.Dex(w.lookup, adt_discr=w.adt_discr, inline=lambda n: n.startswith("ruma_identifiers_validation::") and "{closure" not in n)
+
+        def holds(atom_text, sig=sig):
+            """truth of a condition for the one-character text `sig`; None when the rule does not know the condition"""
+            m = re.match(r"^(\d+) < str::len\(s\)$", atom_text)
+            if m:
+                return int(m.group(1)) < 1
+            m = re.match(r"^str::len\(s\) < (\d+)$", atom_text)
+            if m:
+                return 1 < int(m.group(1))
+            m = re.match(r"^Option::Some\((\d+)\)==slice::first\((?:str::as_bytes\()?s\)?\)$", atom_text)
+            if m:
+                return int(m.group(1)) == ord(sig)
+            m = re.match(r"^str::(?:contains|starts_with)\(s, '(.)'\)$", atom_text)
+            if m:
+                return m.group(1) == sig
+            m = re.match(r"^slice::contains\((?:str::as_bytes\()?s\)?, (\d+)\)$", atom_text)
+            if m:
+                return int(m.group(1)) == ord(sig)
+            if re.match(r"^str::(?:find|rfind|split_once|rsplit_once)\(s, '[^!$@#]'\) is Some$", atom_text):
+                return False
+            if atom_text == "str::is_empty(s)":
+                return False
+            return None
+        for pth in dxv.paths(vf, [D.sym("s")]):
+            if pth.kind == "ret" and U.is_ok(pth.ret) and all(holds(D.show_atom(a_)) is t_ for a_, t_ in pth.conds):
+                lone.append(sig)
+                break
+    ftyp = w.fn("ruma_common::identifiers::matrix_uri::MatrixId::parse_with_type")
+    dxt = D.Dex(w.lookup, adt_discr=w.adt_discr, inline=lambda n: False)
+    unguarded, n_strip = [], 0
+    for pth in dxt.paths(ftyp, [D.sym("s")]):
+        atoms = [(D.show_atom(a_), t_) for a_, t_ in pth.conds]
+        for a_, t_ in atoms:
+            m = re.match(r"^str::(?:strip_suffix|trim_end_matches)\((.*), '/'\) is Some$", a_)
+            if not (m and t_ is True):
+                continue
+            x = m.group(1)
+            stripped = a_[:-len(" is Some")] + ".Some.0"
+            if not any(stripped in b_ for b_, _ in atoms):
+                continue            # the stripped text is not what the decisions of this path are taken on
+            n_strip += 1
+            if not any(f"str::matches({x}, '/')" in b_ or f"str::ends_with({x}, \"//\")" in b_ for b_, _ in atoms):
+                unguarded.append(x)
+    if not lone:
+        ctx.ok("C11.trailing-separator", "C11.trailing-separator:parse_with_type", w.where(ftyp), "no identifier validator accepts a lone sigil (premise not established): the written last segment is never empty")
+    else:
+        ctx.check(not unguarded, "C11.trailing-separator", "C11.trailing-separator:parse_with_type", w.where(ftyp),
+                  ok_msg=f"{n_strip} paths drop a trailing '/', each under a test of the slash count of the unstripped text (lone sigils accepted: {lone})",
+                  bad_msg=f"parse_with_type drops a trailing '/' unconditionally, and the validators accept the lone sigils {lone}: Display writes "
+                          f"`matrix:roomid/` for the room id `!` (and `.../e/` for the event id `$`), whose final '/' separates the type from an empty "
+                          f"identifier; it is stripped and the text is refused (InvalidPartsNumber), so format -> parse does not round-trip")
     # an event URI's room part is read back as RoomOrAliasId, a room URI's as RoomId / RoomAliasId: what one accepts the other must accept
     from . import C10 as _C10
     _C10.or_alias_dispatch_rule(ctx, w, "C11.or-alias")
